@@ -116,9 +116,11 @@ def check_case(case):
     tmp = tempfile.mkdtemp(prefix="vf-c18-")
 
     def agree(what, tol=1e-9):
+        hscale = max(float(np.max(np.abs(model["ns"]))), float(np.max(np.abs(model["ew"]))), 1e-300)
         for c in COMPS:
             have = getattr(rec, c).amplitude
-            scale = max(float(np.max(np.abs(model[c]))), 1e-300)
+            # a rotation mixes the horizontals (sin(360 deg) = -2.4e-16, not 0): their rounding is relative to the larger of the two
+            scale = hscale if c in ("ns", "ew") else max(float(np.max(np.abs(model[c]))), 1e-300)
             if have.shape != model[c].shape:
                 raise Violation(f"{what}: component {c} has {len(have)} samples, the model has {len(model[c])}")
             if not close(have, model[c], rtol=tol, atol=tol * scale):
